@@ -15,6 +15,52 @@ func init() {
 	vHarnesses["vH_C14_traffic_len4"] = vH_C14_traffic_len4
 	vHarnesses["vH_C14_traffic_len5"] = vH_C14_traffic_len5
 	vHarnesses["vH_C14_traffic_len6"] = vH_C14_traffic_len6
+	vHarnesses["vH_C14_traffic_3groups"] = vH_C14_traffic_3groups
+	vHarnesses["vH_C14_traffic_4groups"] = vH_C14_traffic_4groups
+}
+
+func vH_C14_traffic_3groups() { vC14TrafficGroups(3) }
+func vH_C14_traffic_4groups() { vC14TrafficGroups(4) }
+
+var vLetters = [4]byte{'u', 'd', 's', 'h'}
+
+// vC14TrafficGroups: well-formed patterns of g groups <letter><digit><digit> with arbitrary letters and
+// durations 1..99 s: every second of the cycle gets the state of the interval that contains it.
+func vC14TrafficGroups(g int) {
+	buf := make([]byte, 0, 3*g)
+	var st [4]lossState
+	var du [4]int
+	total := 0
+	for i := 0; i < g; i++ {
+		l := vLetters[vConc(vInt("l"+string(rune('0'+i)), 0, 3))]
+		d1 := vInt("a"+string(rune('0'+i)), 0, 9)
+		d2 := vInt("b"+string(rune('0'+i)), 0, 9)
+		vAssume(d1+d2 >= 1)
+		buf = append(buf, l, byte('0'+d1), byte('0'+d2))
+		st[i], du[i] = vStateOf(l), 10*d1+d2
+		total += du[i]
+	}
+	li, err := CreateLossItvls(string(buf))
+	vAssert("C14.groups.accepted", err == nil)
+	if err != nil {
+		return
+	}
+	vAssert("C14.groups.cycle", li.CycleDurS() == total)
+	nowS := vInt("nowS", 0, 1<<40)
+	got := li.StateAt(nowS)
+	rest := nowS % total
+	want := lossUnknown
+	acc := 0
+	found := false
+	for i := 0; i < g; i++ {
+		acc += du[i]
+		if !found && rest < acc {
+			want = st[i]
+			found = true
+		}
+	}
+	vAssert("C14.groups.state", got == want)
+	vReach("C14.groups.end")
 }
 
 func vH_C14_status_testpic2s_c30() { vC14Status(vAsset_testpic_2s(), "V300", 30, nil) }
